@@ -552,7 +552,18 @@ func (e *Engine) heap(st *State, key string, s *Sort) *Term {
 	if !existed && strings.HasSuffix(key, "#ref") && strings.HasPrefix(key, "O:") {
 		e.objSliceAxiom(strings.TrimSuffix(key, "#ref"))
 	}
-	if !existed && (strings.HasSuffix(key, "#ptr") || strings.HasSuffix(key, "#id")) {
+	// identity axioms only make sense for leaves that hold one reference (not arrays of references)
+	scalarRef := func() bool {
+		t := h.Sort
+		if t == nil || t.Kind != SArray {
+			return false
+		}
+		if strings.HasPrefix(key, "S:") {
+			return t.Elem != nil && t.Elem.Kind == SArray && t.Elem.Elem == IntSort
+		}
+		return t.Elem == IntSort
+	}
+	if !existed && (strings.HasSuffix(key, "#ptr") || strings.HasSuffix(key, "#id")) && scalarRef() {
 		// identities stored in the initial heap are not those reserved for local variables
 		c := e.C
 		r := c.Bound("r", IntSort)
@@ -563,7 +574,7 @@ func (e *Engine) heap(st *State, key string, s *Sort) *Term {
 			c.Axioms = append(c.Axioms, c.Forall([]*Term{r}, c.ILt(c.Inti(localIDBase), c.Select(h, r))))
 		}
 	}
-	if !existed && strings.HasSuffix(key, "#ptr") {
+	if !existed && strings.HasSuffix(key, "#ptr") && scalarRef() {
 		// pointers stored in the initial heap refer to pre-existing objects
 		c := e.C
 		r := c.Bound("r", IntSort)
